@@ -74,7 +74,17 @@ func VH22a_patterns() {
 	verif.Assert(rx.ListenOptions(addr, opts) == nil, lab+"/listen")
 	verif.Assert(tx.DialOptions(addr, opts) == nil, lab+"/dial")
 	verif.Quiesce()
-	n := verif.Choice("len", B+1)
+	n := 0
+	if bmax := verif.Param("bmax", 0); bmax > 0 {
+		// a body length on every boundary the code itself names (pool classes, inline buffers, thresholds)
+		const scope = "go.nanomsg.org/mangos/v3,go.nanomsg.org/mangos/v3/internal/core,go.nanomsg.org/mangos/v3/transport,go.nanomsg.org/mangos/v3/transport/inproc"
+		n = verif.Boundary(scope, bmax, verif.Choice("boundary", verif.BoundaryCount(scope, bmax)))
+		if n < verif.Param("bmin", 0) {
+			verif.Assume(false)
+		}
+	} else {
+		n = verif.Choice("len", B+1)
+	}
 	body := verif.Bytes("body", n)
 	{
 		// Send takes a copy: the caller's buffer is overwritten as soon as the call has returned
